@@ -13,6 +13,7 @@ import (
 )
 
 type Plan struct {
+	Property    string // property the plan reports under (default: the plan's own name)
 	Level       string
 	Rule        string
 	Assumptions []string
@@ -50,6 +51,18 @@ func db(dead int, bounds B, names ...string) []Shard {
 	r := pb(dead, bounds, names...)
 	for i := range r {
 		r[i].Delay = true
+	}
+	return r
+}
+// split deals each shard's first-level branches over n processes (see mc.Config.Part).
+func split(n int, ss []Shard) []Shard {
+	var r []Shard
+	for _, s := range ss {
+		for k := 0; k < n; k++ {
+			p := s
+			p.Part, p.Parts = k, n
+			r = append(r, p)
+		}
 	}
 	return r
 }
@@ -120,12 +133,22 @@ func init() {
 		"srv-4bytes-then-close", "srv-stray-response", "srv-hookfail-req", "srv-hookfail-2conn", "srv-hookok-seq", "srv-garbage", "srv-undecodable", "srv-toobig", "srv-req-then-garbage", "srv-slow-close", "srv-halfclose", "srv-3pipelined-close"}
 	c08multi := []string{"srv-2conn-good-bad", "srv-2conn-good-abrupt", "srv-3conn", "srv-4pipelined-read1-close"}
 	plans["C08"] = Plan{
+		Post:  mergeSeqEvidence("C08"),
 		Level: "model_checking",
 		Rule: "all schedules (thread interleavings, select choices, timer firings) of the real kmipserver code under scripted client connections, " +
 			"within the bound given per shard; distinct = distinct (scenario, outcome) classes observed. " + boundingNote,
 		Assumptions: []string{timeAssumption, netAssumption, fifoAssumption, "a half-close is treated like a disconnect (no response required after it)"},
 		Quick:       cat(pb(100, B{{0, 0}, {1, 0}}, c08...), db(100, B{{2, 0}}, c08multi...), db(100, B{{0, 0}, {1, 0}}, "srv-size-history")),
 		Thorough:    cat(pb(1500, B{{1, 0}, {2, 0}}, c08...), db(1500, B{{3, 0}, {4, 0}}, c08...), db(1500, B{{2, 0}, {3, 0}}, c08multi...), pb(1500, B{{0, 0}}, c08multi...), db(1500, B{{2, 0}}, "srv-size-history"), pb(1500, B{{0, 0}}, "srv-size-history")),
+	}
+	plans["C08cold"] = Plan{
+		Property: "C08",
+		Level:    "model_checking",
+		Rule: "first part, built with the codec package instrumented as well (its per-type plan caches are scheduling points, cold at the start of every execution): " +
+			"two and three connections whose first requests are decoded, handled and answered concurrently.",
+		Assumptions: []string{},
+		Quick:       split(16, db(100, B{{1, 0}, {2, 0}}, "srv-2conn-cold")),
+		Thorough:    cat(split(16, db(1500, B{{2, 0}, {3, 0}}, "srv-2conn-cold")), split(16, db(1500, B{{2, 0}}, "srv-3conn-cold")), split(16, pb(1500, B{{0, 0}}, "srv-2conn-cold"))),
 	}
 	c10mw := []string{"cli-par-2-libmw", "cli-par-3-libmw"}
 	c10 := []string{"cli-stray-requests", "cli-cancel-then-next", "cli-timeout-seq", "cli-par-2", "cli-par-cancel", "cli-par-3", "cli-negotiate-cancel"}
@@ -138,7 +161,7 @@ func init() {
 		Quick:       cat(db(100, B{{2, 0}, {3, 0}}, c10...), pb(100, B{{0, 0}, {1, 0}}, "cli-par-2"), db(100, B{{1, 0}, {2, 0}}, c10mw...)),
 		Thorough:    cat(db(1500, B{{3, 0}, {4, 0}}, c10...), pb(1500, B{{0, 0}, {1, 0}, {2, 0}}, c10...), db(1500, B{{3, 0}}, c10mw...), pb(1500, B{{0, 0}, {1, 0}}, c10mw...)),
 	}
-	c11 := []string{"clf-seq3", "clf-seq3-srvclose", "clf-seq3-dial", "clf-negotiate", "clf-par-2", "clf-close-only"}
+	c11 := []string{"clf-close-during-call", "clf-close-during-call-srvclose", "clf-close-during-par", "clf-seq3", "clf-seq3-srvclose", "clf-seq3-dial", "clf-negotiate", "clf-par-2", "clf-close-only"}
 	plans["C11"] = Plan{
 		Level: "fault_enumeration",
 		Rule: "every Read/Write of the client side of every connection (and every dial / server reply) is an environment choice point: ok, EOF, reset, closed, " +
@@ -151,7 +174,7 @@ func init() {
 		Thorough: cat(db(1500, B{{2, 1}, {3, 1}}, c11...), db(1500, B{{0, 2}, {1, 2}}, c11...), pb(1500, B{{0, 1}}, c11...)),
 	}
 
-	c16one := []string{"shut-idle", "shut-half", "shut-fast", "shut-slow", "shut-smallpipe", "shut-hookfail", "shut-late"}
+	c16one := []string{"shut-pipelined", "shut-idle", "shut-half", "shut-fast", "shut-slow", "shut-smallpipe", "shut-hookfail", "shut-late"}
 	c16two := []string{"shut-2conn", "shut-2conn-idle-fast", "shut-twice-slow", "shut-twice-fast", "shut-closeerr-slow", "shut-closeerr-fast"}
 	plans["C16"] = Plan{
 		Level: "model_checking",
@@ -181,6 +204,21 @@ func init() {
 
 	c20two := []string{"codec:enc-req10-ttlv||enc-req14-ttlv", "codec:enc-req10-ttlv||dec-req12-ttlv", "codec:enc-resp14-xml||enc-resp12-json", "codec:enc-create11-xml||enc-create14-ttlv",
 		"codec:dec-resp13-xml||enc-resp14-xml", "codec:dec-create14-json||enc-create11-xml", "codec:reuse-10-then-14||reuse-14-then-10"}
+	c20same := []string{"codec:dec-resp13-xml||dec-resp13-xml", "codec:enc-req14-ttlv||enc-req14-ttlv", "codec:enc-resp14-xml||enc-resp14-xml"}
+	c02heavy := []string{"codec:dec-req12-ttlv||dec-req12-ttlv", "codec:dec-create14-json||dec-create14-json"}
+	c02conc := []string{"codec:dec-resp13-xml||dec-resp13-xml",
+		"codec:dec-trunc-req12-ttlv||dec-req12-ttlv", "codec:dec-trunc-resp13-xml||dec-trunc-resp13-xml", "codec:dec-trunc-create14-json||dec-create14-json"}
+	plans["C02"] = Plan{
+		Post:  mergeSeqEvidence("C02"),
+		Level: "exploration",
+		Rule: "all interleavings (at the per-type plan cache operations of the instrumented ttlv package, caches cold at the start of every execution) of two threads decoding the same well-formed or truncated " +
+			"binary / XML / JSON input at once: no panic, and each call returns what it returns alone. " + boundingNote,
+		Assumptions: []string{"scheduling points are the sync.Map operations of the plan caches (the only synchronisation in the codec)"},
+		Keep:        hasPrefix("fail:codec-result", "panic:"),
+		Pre:         codecPre,
+		Quick:       cat(pb(100, B{{1, 0}, {2, 0}}, c02conc...), split(8, pb(100, B{{1, 0}, {2, 0}}, c02heavy...))),
+		Thorough:    cat(pb(1500, B{{2, 0}, {3, 0}, {4, 0}}, c02conc...), split(16, pb(1500, B{{2, 0}, {3, 0}}, c02heavy...))),
+	}
 	c20big := []string{"codec:enc-req10-ttlv+dec-resp13-xml||enc-resp14-xml+dec-req12-ttlv", "codec:enc-req10-ttlv||enc-req14-ttlv||dec-req12-ttlv"}
 	plans["C20"] = Plan{
 		Level: "model_checking",
@@ -192,8 +230,8 @@ func init() {
 		Keep:     hasPrefix("fail:codec-result", "panic:", "race:"),
 		Pre:      codecPre,
 		Post:     codecPost,
-		Quick:    cat(pb(100, B{{1, 0}, {2, 0}}, c20two...), pb(100, B{{1, 0}}, c20big...), pb(100, B{{0, 0}}, "codec-hist-3", "codec-pairs-ttlv", "codec-pairs-xml", "codec-pairs-json", "codec-pairs-text")),
-		Thorough: cat(pb(1500, B{{2, 0}, {3, 0}}, c20two...), pb(1500, B{{2, 0}}, c20big...), pb(1500, B{{0, 0}}, "codec-hist-4", "codec-pairs5-ttlv", "codec-pairs5-xml", "codec-pairs5-json", "codec-pairs5-text")),
+		Quick:    cat(pb(100, B{{1, 0}, {2, 0}}, c20two...), pb(100, B{{1, 0}, {2, 0}}, c20same...), split(8, pb(100, B{{1, 0}, {2, 0}}, c02heavy...)), pb(100, B{{1, 0}}, c20big...), pb(100, B{{0, 0}}, "codec-hist-3", "codec-pairs-ttlv", "codec-pairs-xml", "codec-pairs-json", "codec-pairs-text")),
+		Thorough: cat(pb(1500, B{{2, 0}, {3, 0}}, c20two...), pb(1500, B{{2, 0}, {3, 0}}, c20same...), split(16, pb(1500, B{{2, 0}, {3, 0}}, c02heavy...)), pb(1500, B{{2, 0}}, c20big...), pb(1500, B{{0, 0}}, "codec-hist-4", "codec-pairs5-ttlv", "codec-pairs5-xml", "codec-pairs5-json", "codec-pairs5-text")),
 	}
 
 	plans["C19"] = Plan{
